@@ -361,3 +361,27 @@ package reconciler
 //@   pure
 //@   requires rq != nil
 //@   ensures result == rq.waitChan
+
+// WaitUntilReconciled is the progress tracker's wait on the reconciler's own tracker.
+//@ func (*reconciler).WaitUntilReconciled
+//@   property C16
+//@   flag nosafety
+//@   maypanic
+//@   requires r != nil && r.progress != nil && !GH_held[addr(r.progress.mu)]
+//@   atcall (*progressTracker).wait@1 requires @own-tracker-callers-revision $0 == r.progress && $2 == untilRevision
+//@   mustcall (*progressTracker).wait@1 when @always true
+// Batch mode: a failed delete is queued as a retry of a DELETE at the revision of the change
+// that failed (which is also its original revision); a retry is cleared only for an update
+// that succeeded.
+//@ func BatchOperations.*
+//@   trusted
+//@   modifies H_statedb_* H_part_* H_lpm_* E_* GH_* CH_closed MD_* MV_* MN_*
+//@ func (*incremental).batch
+//@   property C15 C16
+//@   flag nosafety
+//@   maypanic
+//@   flag dyncall.GetObjectStatus=pure
+//@   flag dyncall.CloneObject=pure
+//@   flag assumepre=the-retry-queues-are-built-once-by-newRetries-and-never-reassigned
+//@   atcall (*retries).Add@1 requires @failed-delete-retried-as-delete-at-its-own-revision entry.Result != nil && $2 == entry.Revision && $3 == entry.Revision && $4 && $5 == entry.Result
+//@   atcall (*retries).Clear@1 requires @only-a-successful-update-clears-its-retry entry.Result == nil
